@@ -274,6 +274,11 @@ impl AsyncCopiaSync {
             }
         }
 
+        // A writer may accept bytes before they are really written (`tokio::fs::File` hands
+        // each write to a background task and reports its error on the NEXT call): wait for
+        // the last one, so that success is never reported for output that was not written.
+        output.flush().await?;
+
         if self.config.verify_checksum {
             let computed = StrongHash::from_bytes(*hasher.finalize().as_bytes());
             if computed != delta.checksum {
